@@ -541,8 +541,20 @@ def loops(ctx):
     targets = [LISTEN, KEEP, RECV, r"^passage_packets::reader::\{impl#0\}::\w+::\{closure#0\}$", r"^passage_packets::writer::\{impl#0\}::write_var\w+::\{closure#0\}$",
                r"^passage_protocol::crypto::stream::\{impl#\d+\}::poll_(read|write)$"]
     n = 0
+    bodies = []
     for rx in targets:
         for b in ctx.prog.find_bodies(rx):
+            if b not in bodies:
+                bodies.append(b)
+    # async blocks and closures written inside those functions are part of them
+    i0 = 0
+    while i0 < len(bodies):
+        for c in ctx.prog.children(bodies[i0].key):
+            if c not in bodies and c.kind in ("Closure", "SyntheticCoroutineBody"):
+                bodies.append(c)
+        i0 += 1
+    for b in bodies:
+        if True:
             an = ctx.an(b)
             nodes = [blk.idx for blk in b.blocks if not blk.cleanup]
             comps = [c for c in sccs(b.succ, nodes) if len(c) > 1 or (c and c[0] in b.succ[c[0]])]
@@ -587,6 +599,7 @@ def loops(ctx):
                                             cur = ss[0]
                             bounded = bounded or bool(exits)
                 reads_exit = False
+                silent_eof = []
                 for bb, kind, name, info in aw:
                     if bb in cs and (kind in ("ws", "select") or name.split("::")[-1].startswith("read")):
                         reads_exit = True   # its `?` (Break edge) leaves the loop: checked next
@@ -598,6 +611,19 @@ def loops(ctx):
                                     info2 = an.switch_info(nb)
                                     errs += [x for x, l in info2[1].items() if "Break" in l]
                         reads_exit = any(not _stays(b, x, cs) for x in errs)
+                        # `read` / `read_buf` report the end of the stream as Ok(0), not as an error: a loop that keeps calling them must
+                        # leave on a zero count
+                        if kind == "ext" and name.split("::")[-1] in ("read", "read_buf", "read_vectored") and reads_exit:
+                            zero_exit = False
+                            for blk2 in b.blocks:
+                                if blk2.idx in cs and blk2.term.kind == "switch" and not b.is_noise(blk2.term):
+                                    e2, ls2 = an.switch_info(blk2.idx)
+                                    x2 = flow.strip(e2)
+                                    if x2[0] == "binop" and x2[1] in ("Eq", "Ne", "Gt", "Lt", "Le", "Ge") and (int_value(x2[2]) == 0 or int_value(x2[3]) == 0) \
+                                            and [c for c in calls_in(x2) if flow.short(c[1]).split("::")[-1] in ("read", "read_buf", "read_vectored")] \
+                                            and any(tb not in cs for tb in ls2):
+                                        zero_exit = True
+                            silent_eof.append((name.split("::")[-1], zero_exit))
                 value_loop = any(x.split("::")[-1] in ("write_all", "write_u8") for x in names) and bool(find_all(("x",), lambda y: False) or True) and \
                     b.key.startswith("passage_packets::writer::")
                 if value_loop:
@@ -627,7 +653,11 @@ def loops(ctx):
                           reason="the loop in %s has a cycle (%s) that passes neither a stream read nor an iterator step: it can keep running without consuming client input"
                                  % (b.key, [site(b, x) for x in sorted(spin[0])[:3]] if spin else ""),
                           detail="every cycle passes a stream read or an iterator step")
-                ctx.check(bounded or reads_exit, R, key, where,
+                ctx.check(all(z for _, z in silent_eof), R, key + "/eof-is-zero-count", where,
+                          reason="the loop in %s keeps calling %s, which reports the client's end of stream as Ok(0) rather than an error, and never leaves on a "
+                                 "zero count: after EOF it spins forever" % (b.key, sorted(set(nm for nm, _ in silent_eof))),
+                          detail="no read()/read_buf() loop without a zero-count exit")
+                ctx.check(bounded or reads_exit, R, key,
                           reason="loop in %s (%d blocks, calls %s) is neither iterator-bounded nor left on a failed stream read: it could spin after the client's end of stream"
                                  % (b.key, len(comp), sorted(set(x.split("::")[-1] for x in real))[:6]),
                           detail="loop is %s" % ("iterator-bounded" if bounded else "left when a stream read fails (EOF)"))
